@@ -80,37 +80,113 @@ Inductive aobs :=
 Definition side (is_long : bool) : Z := if is_long then 0 else 1.
 Definition passed (now last : Z) : Z := Z.max (now - last) 0.
 
-(* one access inside an operation: new state and what the caller observes ([now] = Clock unix time) *)
-Definition astep (now : Z) (m : bstate) (a : act) : bstate * aobs :=
-  match a with
-  | APoolRead k => let v := get m k in (m, OPair (nthz v 0) (nthz v 1))
-  | APoolAdd k is_long d =>
-      let m1 := get_mut m k (fun v => v) in                         (* pool_mut marks the entry *)
-      let v := get m1 k in
-      let x := nthz v (side is_long) + d in
-      if in_u 128 x then (get_mut m1 k (fun v => setz v (Z.to_nat (side is_long)) x), OCode 0)
-      else (m1, OCode 1)
-  | AClockRead c => (m, OVal (passed now (nthz (get m K_CLOCKS) c)))
-  | AClockTick c =>
-      let m1 := get_mut m K_CLOCKS (fun v => v) in
-      let last := nthz (get m1 K_CLOCKS) c in
-      if 0 <? now - last then (get_mut m1 K_CLOCKS (fun v => setz v (Z.to_nat c) now), OVal (now - last))
-      else (m1, OVal 0)
-  | ABalRead is_long => (m, OVal (nthz (get m K_OTHER) (side is_long)))
-  | ABalIn is_long amt =>
-      let m1 := get_mut m K_OTHER (fun v => v) in
-      let x := nthz (get m1 K_OTHER) (side is_long) + amt in
-      if in_u 64 x then (get_mut m1 K_OTHER (fun v => setz v (Z.to_nat (side is_long)) x), OCode 0)
-      else (m1, OCode 1)
-  | ABalOut is_long amt =>
-      let m1 := get_mut m K_OTHER (fun v => v) in
-      let x := nthz (get m1 K_OTHER) (side is_long) - amt in
-      if in_u 64 x then (get_mut m1 K_OTHER (fun v => setz v (Z.to_nat (side is_long)) x), OCode 0)
-      else (m1, OCode 1)
-  | AFfRead => (m, OVal (nthz (get m K_OTHER) 2))
-  | AFfWrite v => (get_mut m K_OTHER (fun l => setz l 2 v), OCode 0)
-  | ARev => (m, OVal (brev m))
+(* one access inside an operation, written once over an abstract store interface
+   ([g] = shared access, [gm] = mutable access followed by an in-place update, [rv] = revision):
+   new state and what the caller observes ([now] = Clock unix time) *)
+Section Generic.
+  Variable st : Type.
+  Variable g : st -> Z -> list Z.
+  Variable gm : st -> Z -> (list Z -> list Z) -> st.
+  Variable rv : st -> Z.
+
+  Definition gstep (now : Z) (m : st) (a : act) : st * aobs :=
+    match a with
+    | APoolRead k => let v := g m k in (m, OPair (nthz v 0) (nthz v 1))
+    | APoolAdd k is_long d =>
+        let m1 := gm m k (fun v => v) in                         (* pool_mut marks the entry *)
+        let v := g m1 k in
+        let x := nthz v (side is_long) + d in
+        if in_u 128 x then (gm m1 k (fun v => setz v (Z.to_nat (side is_long)) x), OCode 0)
+        else (m1, OCode 1)
+    | AClockRead c => (m, OVal (passed now (nthz (g m K_CLOCKS) c)))
+    | AClockTick c =>
+        let m1 := gm m K_CLOCKS (fun v => v) in
+        let last := nthz (g m1 K_CLOCKS) c in
+        if 0 <? now - last then (gm m1 K_CLOCKS (fun v => setz v (Z.to_nat c) now), OVal (now - last))
+        else (m1, OVal 0)
+    | ABalRead is_long => (m, OVal (nthz (g m K_OTHER) (side is_long)))
+    | ABalIn is_long amt =>
+        let m1 := gm m K_OTHER (fun v => v) in
+        let x := nthz (g m1 K_OTHER) (side is_long) + amt in
+        if in_u 64 x then (gm m1 K_OTHER (fun v => setz v (Z.to_nat (side is_long)) x), OCode 0)
+        else (m1, OCode 1)
+    | ABalOut is_long amt =>
+        let m1 := gm m K_OTHER (fun v => v) in
+        let x := nthz (g m1 K_OTHER) (side is_long) - amt in
+        if in_u 64 x then (gm m1 K_OTHER (fun v => setz v (Z.to_nat (side is_long)) x), OCode 0)
+        else (m1, OCode 1)
+    | AFfRead => (m, OVal (nthz (g m K_OTHER) 2))
+    | AFfWrite v => (gm m K_OTHER (fun l => setz l 2 v), OCode 0)
+    | ARev => (m, OVal (rv m))
+    end.
+
+  Fixpoint gacts (now : Z) (m : st) (l : list act) : st * list aobs :=
+    match l with
+    | [] => (m, [])
+    | a :: r => let '(m1, o) := gstep now m a in let '(m2, os) := gacts now m1 r in (m2, o :: os)
+    end.
+End Generic.
+
+Definition astep := gstep bstate get get_mut brev.
+
+(* a whole operation: RevertibleMarket::new, the accesses, then commit() or drop *)
+Definition run_op (now : Z) (m : bstate) (acts : list act) (cm : bool) : res (bstate * list aobs) :=
+  m0 <-- start m ;;
+  let '(m1, os) := gacts bstate get get_mut brev now m0 acts in
+  Ok (if cm then commit m1 else m1, os).
+
+Inductive hitem := HSetTime (ts : Z) | HOp (acts : list act) (cm : bool).
+
+Fixpoint run_hist (now : Z) (m : bstate) (h : list hitem) : res (bstate * list (list aobs)) :=
+  match h with
+  | [] => Ok (m, [])
+  | HSetTime ts :: r => run_hist ts m r
+  | HOp acts cm :: r =>
+      x <-- run_op now m acts cm ;;
+      y <-- run_hist now (fst x) r ;;
+      Ok (fst y, snd x :: snd y)
   end.
+
+(* ---------- the specification: transactions over a plain store ----------
+   [tS] committed values, [tW] write-set of the running operation, [tn] operation counter *)
+Record tstate := mkt { tS : Z -> list Z; tW : Z -> option (list Z); tn : Z }.
+Definition tget (t : tstate) (k : Z) : list Z := match tW t k with Some v => v | None => tS t k end.
+Definition tget_mut (t : tstate) (k : Z) (f : list Z -> list Z) : tstate :=
+  mkt (tS t) (fun j => if j =? k then Some (f (tget t k)) else tW t j) (tn t).
+Definition tstart (t : tstate) : tstate := mkt (tS t) (fun _ => None) (tn t + 1).
+Definition in_keys (k : Z) : bool := (0 <=? k) && (k <? 18).
+Definition tcommit (t : tstate) : tstate :=
+  mkt (fun k => if in_keys k then (match tW t k with Some v => v | None => tS t k end) else tS t k) (tW t) (tn t).
+
+Definition trun_op (now : Z) (t : tstate) (acts : list act) (cm : bool) : tstate * list aobs :=
+  let '(t1, os) := gacts tstate tget tget_mut tn now (tstart t) acts in
+  (if cm then tcommit t1 else t1, os).
+
+Fixpoint trun_hist (now : Z) (t : tstate) (h : list hitem) : tstate * list (list aobs) :=
+  match h with
+  | [] => (t, [])
+  | HSetTime ts :: r => trun_hist ts t r
+  | HOp acts cm :: r =>
+      let x := trun_op now t acts cm in
+      let y := trun_hist now (fst x) r in
+      (fst y, snd x :: snd y)
+  end.
+
+(* ---------- RevertibleLiquidityMarket: mint / burn are only recorded, executed by commit ----------
+   (model only — not driven by the harness, see notes/C21.md) *)
+Record lm := mklm { supply : Z; to_mint : Z; to_burn : Z }.
+Definition lm_mint (l : lm) (amt : Z) : res lm :=
+  if in_u 64 amt then
+    let tm := to_mint l + amt in
+    if in_u 64 tm && in_u 64 (supply l + tm) then Ok (mklm (supply l) tm (to_burn l)) else Err 1
+  else Err 1.
+Definition lm_burn (l : lm) (amt : Z) : res lm :=
+  if in_u 64 amt then
+    let tb := to_burn l + amt in
+    if in_u 64 tb && in_u 64 (supply l - tb) then Ok (mklm (supply l) (to_mint l) tb) else Err 1
+  else Err 1.
+(* token supply after the operation ends *)
+Definition lm_finish (l : lm) (cm : bool) : Z := if cm then supply l + to_mint l - to_burn l else supply l.
 
 (* initial state after Market::init at time t0: zeroed entries (rev 0), clocks = t0, buffer.rev = 1 *)
 Definition entry0 (t0 : Z) (k : Z) : entry :=
